@@ -336,3 +336,43 @@ func ZZVerif_C09_ClaimProofs() {
 		zzverif.Assert("attached signature is the signer's answer", same)
 	}
 }
+
+// ZZVerif_C09_TwoRoots: the same querier proves exit roots against two different L1 info roots one after the other (two
+// certificates with the finalized pointer moving in between; the second one may concern the same exit root as the first).
+// Each answer must verify against the root it was asked for.
+func ZZVerif_C09_TwoRoots() {
+	nl := zzverif.Param("NL")
+	ctx := context.Background()
+	syn := &zzL1Syncer{}
+	for j := 0; j < nl; j++ {
+		lf := l1infotreesync.L1InfoTreeLeaf{BlockNumber: uint64(10 * (j + 1)), L1InfoTreeIndex: uint32(j), PreviousBlockHash: zzverif.Hash("parent"),
+			Timestamp: zzverif.U64("ts"), MainnetExitRoot: zzverif.Hash("mer"), RollupExitRoot: zzverif.Hash("rer")}
+		lf.GlobalExitRoot = crypto.Keccak256Hash(lf.MainnetExitRoot[:], lf.RollupExitRoot[:])
+		lf.Hash = lf.GetHash()
+		for _, o := range syn.leaves {
+			zzverif.Assume(o.GlobalExitRoot != lf.GlobalExitRoot)
+		}
+		syn.leaves = append(syn.leaves, lf)
+		syn.hashes = append(syn.hashes, lf.Hash)
+	}
+	lq := query.NewL1InfoTreeDataQuerier(&zzL1Client{}, syn)
+	// first certificate: root covering leaves 0..a ; second: root covering 0..b, b > a ; exit roots of leaves i <= a and j <= b
+	a := zzverif.Int("firstRootIndex", 0, nl-2)
+	b := zzverif.Int("secondRootIndex", a+1, nl-1)
+	i := zzverif.Int("firstLeaf", 0, a)
+	j := zzverif.Int("secondLeaf", 0, b)
+	for step, q := range [][2]int{{i, a}, {j, b}} {
+		root := syn.rootAt(uint32(q[1]))
+		leaf, proof, err := lq.GetProofForGER(ctx, syn.leaves[q[0]].GlobalExitRoot, root)
+		zzverif.Assert("proof found", err == nil && leaf != nil)
+		if err != nil || leaf == nil {
+			return
+		}
+		zzverif.Assert("leaf is the one holding the exit root", leaf.L1InfoTreeIndex == uint32(q[0]) && leaf.GlobalExitRoot == syn.leaves[q[0]].GlobalExitRoot)
+		zzverif.Assert("proof verifies against the root asked for", tree.CalculateRoot(leaf.Hash, proof, leaf.L1InfoTreeIndex) == root)
+		if step == 1 && i == j {
+			zzverif.Reach("same exit root twice")
+		}
+	}
+	zzverif.Reach("both")
+}
